@@ -288,7 +288,7 @@ func genFor(t *rapid.T, e *entry) parseCase {
 var chkParse = harness.Define("parse-any-bytes", genParse, runParse)
 
 func TestRandom(t *testing.T) {
-	chkParse.Rapid(t, harness.Pick(50000, 800000))
+	chkParse.Rapid(t, harness.Pick(50000, 4000000))
 }
 
 // TestTiny: every byte string of length 0..2 on every entry point.
